@@ -58,6 +58,7 @@ Dimensions 14-18:
   18  `fine_tempo`: tempo changes at whole beat + p/q, q from 24, 32, 48, 64, 96, 5, 7, 9 (positions of the default 1..96 snap grid
       that no coarse grid holds), neighbouring tempos at least 1.5 : 1, an object shortly after every change.
   tempo_changes_within_grid   every tempo point of the mapset is in the text's #BPMS, with its bpm, at its time to within 1/96 beat
+                              (id suffix .two_decimal_bpms_beats: the displacement is exactly the two-decimal rounding of N5)
       at the slower of the tempos on its two sides (the two-decimal beats of known finding N5 move a change by <= 0.005 beat,
       half of that; what N5 does to the OBJECTS after the change stays in object_times_within_grid)
 """
@@ -659,7 +660,12 @@ def _compare_charts(snap, d, sfx):
             allowed = 60000 / min(tl.v[max(i - 1, 0)], v) / 96 + TOL_MS
             near = [x for x, w in zip(tl_text.t, tl_text.v) if abs(w - v) <= 1e-9 * v]
             if not near or min(abs(x - t) for x in near) > allowed:
-                fails.append(("tempo_changes_within_grid" + sfx, f"chart {k}: tempo point {i} of the mapset, {v} bpm at {t} ms (beat {round(tl.b[i], 5)}): " + (f"the nearest #BPMS entry with that bpm is at {min(near, key=lambda x: abs(x - t))} ms, allowed {round(allowed, 4)} ms" if near else "no #BPMS entry with that bpm") + f"; #BPMS denotes {list(zip(tl_text.t, tl_text.v))[:6]}"))
+                # Known finding N5 (#BPMS beats carry two decimals) in this clause: when the text's entry sits exactly where
+                # the two-decimal beats of all changes up to this one put it, the deviation is that finding and is reported
+                # under an id of its own, so that every OTHER displacement of a tempo change stays in the plain clause.
+                t2 = tl.t[0] + sum((float(f"{tl.b[j]:.2f}") - float(f"{tl.b[j - 1]:.2f}")) * 60000 / tl.v[j - 1] for j in range(1, i + 1))
+                n5 = bool(near) and min(abs(x - t2) for x in near) <= TOL_MS + 1e-6 * max(1.0, abs(t2))
+                fails.append(("tempo_changes_within_grid" + (".two_decimal_bpms_beats" if n5 else "") + sfx, f"chart {k}: tempo point {i} of the mapset, {v} bpm at {t} ms (beat {round(tl.b[i], 5)}): " + (f"the nearest #BPMS entry with that bpm is at {min(near, key=lambda x: abs(x - t))} ms, allowed {round(allowed, 4)} ms" if near else "no #BPMS entry with that bpm") + f"; #BPMS denotes {list(zip(tl_text.t, tl_text.v))[:6]}"))
                 break
         want, got = sc["objects"], den_objects(dc)
         times = [t for kind in NOTE_KINDS for _, t, ln in want[kind] for t in ((t, t + ln) if kind in ("holds", "rolls") else (t,))]
